@@ -442,8 +442,11 @@ def judge(run: dict, choice: dict) -> tuple[list, dict]:
                 # the worker is FIFO: it turns to this transition once it is done with the last attempt it sent
                 # (an unanswered / invisible attempt keeps it waiting for 10 s)
                 free_at = first_missing[0]
-                if frames and frames[-1]['k'] == 'A':
-                    free_at = max(free_at, frames[-1]['t'] + (10.0 if frames[-1]['beh'] in ('silence', 'invisible') else 0.0))
+                for f_ in frames:
+                    # every frame the worker sent kept it busy until then; an unanswered AddUser for another 10 s
+                    # (also when a RemoveUser for an older transition followed it: that one went out after the wait)
+                    busy = 10.0 if f_['k'] == 'A' and f_.get('beh') in ('silence', 'invisible') else 0.0
+                    free_at = max(free_at, f_['t'] + busy)
                 excused = t_cut is not None and t_cut < free_at + 0.1
                 if obs_end is None:
                     excused = True          # session never observed to its end (harness): not judged
